@@ -43,9 +43,10 @@ Fixpoint plan_loop (c : cfg) (fuel : nat) (wave visited : list nat) : list nat :
   match fuel with
   | 0 => visited
   | S f =>
-    match dedup (filter (fun t => negb (mem t visited)) wave) with
+    let new := dedup (filter (fun t => negb (mem t visited)) wave) in
+    match new with
     | [] => visited
-    | new => plan_loop c f (flat_map (pdeps_of c) new) (visited ++ new)
+    | _ :: _ => plan_loop c f (flat_map (pdeps_of c) new) (visited ++ new)
     end
   end.
 Definition plan (c : cfg) : list nat := plan_loop c (S (ntasks c)) (req c) [].
@@ -283,3 +284,26 @@ Definition check_case (p : params) (k : case) : bool :=
   && list_eqb event_eqb (rev (hist s)) (k_trace k)
   && list_eqb Nat.eqb (sort_nat (keys (rmap s))) (k_final_rmap k)
   && list_eqb Nat.eqb (sort_nat (dedup (keys (store s)))) (k_final_store k).
+
+(* Property-scoped comparison: each property compares the projection of the trace it speaks about. *)
+Record proj := {
+  pj_outcome : bool; pj_submit : bool; pj_finish : bool; pj_values : bool;
+  pj_capture : bool; pj_release : bool; pj_rmap : bool; pj_store : bool;
+}.
+Definition project (j : proj) (l : list event) : list event :=
+  flat_map (fun e => match e with
+                     | ESubmit _ _ => if pj_submit j then [e] else []
+                     | EFinish t r => if pj_finish j
+                                      then [if pj_values j then e
+                                            else EFinish t (match r with Some _ => Some (Node 0 []) | None => None end)]
+                                      else []
+                     | ECapture _ => if pj_capture j then [e] else []
+                     | ERelease _ => if pj_release j then [e] else []
+                     end) l.
+Definition check_proj (p : params) (j : proj) (k : case) : bool :=
+  let '(out, s) := run p (k_cfg k) (k_oracle k) in
+  wfb (k_cfg k)
+  && (negb (pj_outcome j) || outcome_eqb out (k_outcome k))
+  && list_eqb event_eqb (project j (rev (hist s))) (project j (k_trace k))
+  && (negb (pj_rmap j) || list_eqb Nat.eqb (sort_nat (keys (rmap s))) (k_final_rmap k))
+  && (negb (pj_store j) || list_eqb Nat.eqb (sort_nat (dedup (keys (store s)))) (k_final_store k)).
